@@ -1,14 +1,15 @@
 package vsched
 
 import (
-	"sync/atomic"
 	"syscall"
 	"unsafe"
 )
 
-// Raw futex parking: the race detector instruments neither the raw system
-// call nor the accesses below (norace), so a hand-off through these
-// functions creates no happens-before edge.
+// Raw futex parking. The word is accessed with plain loads and stores inside
+// //go:norace functions (sync/atomic operations would be seen by the race
+// detector as synchronisation), and the raw system call is not instrumented
+// either, so a hand-off through these functions creates no happens-before
+// edge. The futex system call orders the accesses for the hardware.
 
 const (
 	futexWait = 0
@@ -16,17 +17,27 @@ const (
 )
 
 //go:norace
+//go:noinline
+func loadWord(w *int32) int32 { return *w }
+
+//go:norace
+//go:noinline
+func storeWord(w *int32, v int32) { *w = v }
+
+//go:norace
 func futexPark(w *int32) {
 	for {
-		if atomic.CompareAndSwapInt32(w, 1, 0) {
+		if loadWord(w) == 1 {
+			storeWord(w, 0)
 			return
 		}
+		// sleeps only if the word is still 0
 		syscall.Syscall6(syscall.SYS_FUTEX, uintptr(unsafe.Pointer(w)), futexWait, 0, 0, 0, 0)
 	}
 }
 
 //go:norace
 func futexUnpark(w *int32) {
-	atomic.StoreInt32(w, 1)
+	storeWord(w, 1)
 	syscall.Syscall6(syscall.SYS_FUTEX, uintptr(unsafe.Pointer(w)), futexWake, 1, 0, 0, 0)
 }
